@@ -55,11 +55,11 @@ def scan (np : NetPol) (d : Dir) : Except Err Scan :=
   if !np.affects d then .ok {}
   else (match d with | .ingress => np.ingress | .egress => np.egress).foldlM scanRule {}
 
-/-- `UniqueKeyFromLabelsSelector`: concatenated requirement strings (hash pre-image) -/
+/-- `UniqueKeyFromLabelsSelector`: the requirement strings joined with `;` (hash pre-image) -/
 def uniqueKey (s : Option Selector) : String :=
   match s with
   | none => ""
-  | some x => String.join x.reqStrings
+  | some x => ";".intercalate x.reqStrings
 
 def nsNameSelector (ns : String) : Selector := ⟨[(nsNameLabelKey, ns)], []⟩
 
@@ -87,7 +87,7 @@ def addRepresentative (reps : List (String × Pod)) (policyNs : String) (rs : Ru
   let nsSel : Selector := match rs.nsSel with
     | some s => s
     | none => nsNameSelector podNs
-  let key := uniqueKey (some nsSel) ++ "/" ++ uniqueKey rs.podSel
+  let key := uniqueKey (some nsSel) ++ "|" ++ uniqueKey rs.podSel
   let newPod : Pod := { ns := podNs, name := representativePodName, labels := [], ports := [], fake := true,
                         reprPodSel := rs.podSel, reprNsSel := some nsSel }
   match reps.find? (·.1 == key) with
